@@ -84,8 +84,22 @@ inline Gen<Value> doc_value(const DocOpts &o) {
                                   }
                                   return Value::chr(s, true);
                               });
-    if (o.hard_text) return rc::gen::weightedOneOf<Value>({{30, value(o.vo, 0)}, {1, longv}, {1, foldv}, {7, hard_text(o.dialect == cp::CIF11)}});
-    return rc::gen::weightedOneOf<Value>({{30, value(o.vo, 0)}, {1, longv}, {1, foldv}});
+    // multi-line values whose lines differ much in length (a writer that tracks its output column must use the LAST line's length
+    // after such a value): 1-3 lines of 0..60 characters around one line of 1200..2040
+    auto tailv = rc::gen::map(rc::gen::tuple(range(1200, 2040), range(0, 0x3fffffff)),
+                              [](std::tuple<int, int> t) {
+                                  int n = std::get<0>(t); uint32_t x = (uint32_t) std::get<1>(t) | 1u;
+                                  auto shortline = [&]() { x = x * 1664525u + 1013904223u; int k = (int) ((x >> 10) % 61); return ustr((size_t) k, (char16_t) (u'a' + (x >> 24) % 26)); };
+                                  ustr longline((size_t) n, u'y');
+                                  x = x * 1664525u + 1013904223u; int shape = (int) ((x >> 12) % 4);
+                                  ustr s = shape == 0 ? shortline() + u"\n" + longline                 // long LAST line
+                                         : shape == 1 ? longline + u"\n" + shortline()                 // long FIRST line
+                                         : shape == 2 ? shortline() + u"\n" + longline + u"\n" + shortline()
+                                                      : shortline() + u"\n" + shortline() + u"\n" + longline;
+                                  return Value::chr(s, true);
+                              });
+    if (o.hard_text) return rc::gen::weightedOneOf<Value>({{30, value(o.vo, 0)}, {1, longv}, {1, foldv}, {1, tailv}, {7, hard_text(o.dialect == cp::CIF11)}});
+    return rc::gen::weightedOneOf<Value>({{30, value(o.vo, 0)}, {1, longv}, {1, foldv}, {1, tailv}});
 }
 
 inline Gen<Container> container(const DocOpts &o, const char16_t *stem, int idx, int depth) {
